@@ -279,7 +279,7 @@ func init() {
 
 	register(&Check{ID: "C31", QuickBud: 150 * time.Second, ThorBud: 30 * time.Minute,
 		Run: func(c *ev.Ctx) {
-			c.Rule = "For every (blocks per session, claim submission window) configuration, on the real application: (1) a valid claim for one session is submitted at EVERY height from before the session end to after the window; the set A of heights at which the network accepts it is recorded; (2) the block whose content last influences the required leaf is determined by differential executions: the same history is re-executed with the hash of exactly one block k changed, for every k from the session start to after the window, and the required indices for claims of 5..16 relays are compared (K = the last k that changes them; the hash of block K is public once block K is committed, i.e. for every transaction included at height K+1 or later); every execution also submits the proof at the mirrored index (must be accepted) and at the next index (must be rejected), which binds the harness's index computation to the implementation. Violation iff max(A) >= K+1. Indices must lie in [0, relays) and be identical in repeated executions"
+			c.Rule = "For every (blocks per session, claim submission window) configuration, on the real application: (1) a valid claim for one session is submitted at EVERY height from before the session end to after the window; the set A of heights at which the network accepts it is recorded; (2) the block whose content last influences the required leaf is determined by differential executions: the same history is re-executed with the hash of exactly one block k changed, for every k from the session start to after the window, and the required indices for claims of 5..16 relays are compared (K = the last k that changes them; the hash of block K is public once block K is committed, i.e. for every transaction included at height K+1 or later); every execution also submits the proof at the mirrored index (must be accepted) and at the next index (must be rejected), which binds the harness's index computation to the implementation. Violation iff max(A) >= K+1; (3) with the claim in place, proofs for every leaf index are delivered at every height from the claim's own block up to K: none may be accepted (the entropy block does not exist yet). Indices must lie in [0, relays) and be identical in repeated executions"
 			p := getPool()
 			type cfgT struct{ bps, win int64 }
 			cfgs := []cfgT{{2, 2}, {3, 2}, {4, 2}, {2, 3}}
@@ -394,6 +394,41 @@ func init() {
 					}
 					c.Distinct(fmt.Sprintf("%s|salt@%d", name, k))
 				}
+				// (3) no proof is accepted while the entropy block does not exist yet: at every height p from the claim's own
+				// block up to K, proofs for EVERY leaf index are delivered (one transaction per index, after the claim);
+				// an accepted one had its leaf selected by something other than the hash of block K, i.e. by data the
+				// servicer knew when it committed the claim
+				if K > 0 {
+					for pth := S + cf.bps; pth <= K; pth++ {
+						job := mk(S+cf.bps, 0, 0, "")
+						for i := range job.Blocks {
+							if first+int64(i) == pth {
+								for idx := 0; idx < 6; idx++ {
+									job.Blocks[i].Txs = append(job.Blocks[i].Txs, TxSpec{Kind: "proof", Signer: "N1", Args: map[string]string{"session": fmt.Sprint(S), "index": fmt.Sprint(idx)}})
+								}
+							}
+						}
+						res := p.Exec(job)
+						njobs++
+						if res.Err != "" {
+							c.HarnessError(name + ": " + res.Err)
+							continue
+						}
+						for _, b := range res.Blocks {
+							if b.Height != pth {
+								continue
+							}
+							for ti, t := range b.Txs {
+								if t.Code == 0 && !(pth == S+cf.bps && ti == 0) {
+									c.Report("unpredictability/proof-accepted-before-entropy-block",
+										fmt.Sprintf("%s, session %d claimed in block %d: a proof (transaction %d of the block) is accepted in block %d, although the required leaf is decided by the hash of block %d, which does not exist before block %d is committed: the leaf was selected from data known when the claim was committed", name, S, S+cf.bps, ti, pth, K, K),
+										chainReplay{Spec: "c31", Env: env, Blocks: job.Blocks, Want: []string{"c31:indices"}})
+								}
+							}
+						}
+						c.Distinct(fmt.Sprintf("%s|early-proof@%d", name, pth))
+					}
+				}
 				c.Outcome(fmt.Sprintf("%s: claims accepted at heights %d..%d (session %d..%d), index decided by the hash of block %d", name, A[0], maxA, S, S+cf.bps-1, K))
 				if K < 0 {
 					c.Report("unpredictability/index-independent-of-block-hashes", name+": no block hash between the session start and the end of the window influences the required index", chainReplay{Spec: "c31", Env: env, Blocks: base.Blocks})
@@ -428,7 +463,7 @@ func init() {
 			if res.Err != "" {
 				return desc, fmt.Errorf("harness error: %s", res.Err)
 			}
-			return desc, fmt.Errorf("claim accepted at the last height of the window (see description); entropy analysis needs the full check")
+			return desc, fmt.Errorf("the recorded history re-executed: accepted claim/proof transactions and their heights are listed in the description; relating them to the entropy block needs the differential runs of the full check")
 		},
 	})
 }
